@@ -213,7 +213,7 @@ DEFAULT_KNOBS = dict(
     orphans_return=True, txindex=True, urls=1, resegment=True, max_hist_row=None,
     services='tcp://:50001,rpc://:8000', peer_discovery='off', tor_proxy_port=None, session_timeout=10_000_000,
     request_timeout=30, cost_limits=(0, 0), extra_env=None, stall_boost=None, polling_delay=None,
-    refresh_secs=None, protos=None, stall_max=None, file_size=None, log_status_secs=None, line_stall_p=None,
+    refresh_secs=None, protos=None, stall_max=None, file_size=None, log_status_secs=None, line_stall_p=None, queue_p=None,
 )
 
 
@@ -231,6 +231,8 @@ class World:
             self.sim.stall_max = float(k['stall_max'])
         if k.get('line_stall_p'):
             self.sim.line_stall_p = float(k['line_stall_p'])
+        if k.get('queue_p'):
+            self.sim.queue_p = float(k['queue_p'])
         self.fs = seams.SimFS()
         self.fs.sim = self.sim
         self.store = seams.SimDBStore()
